@@ -372,6 +372,20 @@ fn receivers_naive(acc: &mut Acc) {
             }
         }
     }
+    // rounding at the ends of the 64-bit nanosecond window (the stamp fits, intermediate sums may not)
+    for inst in [i64::MAX as i128, i64::MAX as i128 - 1, i64::MAX as i128 - 499_999_999, i64::MAX as i128 + 1, i64::MIN as i128, i64::MIN as i128 + 1, i64::MIN as i128 + 500_000_000, i64::MIN as i128 - 1, 0, -1, 1] {
+        let t = mk_ndt_inst(inst);
+        let u = t.and_utc();
+        let o = FixedOffset::east_opt(-3600).unwrap().from_utc_datetime(&t);
+        for &sp in &ds {
+            call!(acc, "NaiveDateTime::duration_round", format!("{:?}.duration_round({:?})", t, sp), t.duration_round(sp).ok());
+            call!(acc, "NaiveDateTime::duration_trunc", format!("{:?}.duration_trunc({:?})", t, sp), t.duration_trunc(sp).ok());
+            call!(acc, "NaiveDateTime::duration_round_up", format!("{:?}.duration_round_up({:?})", t, sp), t.duration_round_up(sp).ok());
+            call!(acc, "DateTime::duration_round", format!("{:?}.duration_round({:?})", u, sp), u.duration_round(sp).ok());
+            call!(acc, "DateTime::duration_trunc", format!("{:?}.duration_trunc({:?})", o, sp), o.duration_trunc(sp).ok());
+            call!(acc, "DateTime::duration_round_up", format!("{:?}.duration_round_up({:?})", o, sp), o.duration_round_up(sp).ok());
+        }
+    }
     // NaiveTime with_*
     for (s, f) in [(0u32, 0u32), (86399, 1_999_999_999), (43200, 5)] {
         let t = mk_time(s, f);
